@@ -826,6 +826,23 @@ func guardedByHasErrors(b *ssa.BasicBlock, d ssa.Value) bool {
 }
 
 func isErrorReturn(ret *ssa.Return) bool {
+	if isErrorReturn1(ret) {
+		return true
+	}
+	// the diagnostics live in a cell (they are captured by a closure): an error diagnostic was
+	// recorded on the way to this return, or the return lies under a HasErrors() test
+	hasDiags := false
+	for _, r := range ret.Results {
+		if isDiagnosticsType(r.Type()) {
+			if c, ok := r.(*ssa.Const); !ok || !c.IsNil() {
+				hasDiags = true
+			}
+		}
+	}
+	return hasDiags && errorEvidence(ret.Block())
+}
+
+func isErrorReturn1(ret *ssa.Return) bool {
 	for _, r := range ret.Results {
 		r = lookThrough(r)
 		if isDiagnosticsType(r.Type()) {
